@@ -167,6 +167,30 @@ def judge_csv(rec, crules, txns, tmp, rnd):
             rec.interesting(['csv', core.digest(case0), core.digest(O.jtxn(txn))])
 
 
+def legacy_dynamic_tags_probe(rec, tmp):
+    """Legacy CSV rules with {expression} tags: a tag whose expression cannot be evaluated for the transaction is dropped ON ITS OWN - the tags listed after it
+    (static or dynamic) are still part of the union."""
+    for cells in (['{field.kind}', '{source}', 'plain', '{extract("(FLIX)")}'], ['first', '{nosuchname}', '{source}'], ['{field.kind}', '{field.other}', '{source}', 'last'],
+                  ['{source}', '{field.kind}', '{extract("(NET)")}']):
+        outs = []
+        for keep_failing in (True, False):
+            tags = [c for c in cells if keep_failing or not (c.startswith('{field.') or c == '{nosuchname}')]
+            path = O.write(os.path.join(tmp, 'merchant_categories.csv'), 'Pattern,Merchant,Category,Subcategory,Tags\nNETFLIX,Netflix,Subs,Video,%s\n' % '|'.join(tags).replace('"', '""').join('""'))
+            prules, _ = O.production_load(path)
+            txn = {'description': 'NETFLIX.COM', 'amount': 12.0, 'date': world.DATES[0], 'field': None, 'source': 'Card', 'location': None}
+            try:
+                outs.append(O.production_result(prules, [], txn, {})['tags'])
+            except O.ImplError as e:
+                rec.violation('impl-raises:' + type(e.exc).__name__, str(e)[:300], {'kind': 'legacy-dynamic-tags'})
+                return
+        rec.case()
+        rec.count('legacy_dynamic_tag_checks')
+        if outs[0] != outs[1] or not outs[1]:
+            rec.violation('csv-tags-differ-from-union:unevaluable-tag-hides-later-tags', f'CSV rule with Tags {cells}: tags {sorted(outs[0])}; without the tags that cannot be evaluated '
+                          f'for this transaction: {sorted(outs[1])}', {'kind': 'legacy-dynamic-tags'})
+            return
+
+
 def judge_parse_generic(rec, rf, rows, tmp, rnd, ptxns=None):
     """Tags as they reach the parsed transaction (parse_generic_csv output)."""
     path = O.write(os.path.join(tmp, 'm.rules'), R.render(rf))
@@ -277,6 +301,8 @@ def run(rec, shard, nshards, t):
                 if rnd.random() < .3:
                     r.tags = r.tags + [rnd.choice(['{field.memo}', '{source}', '{field.code}', ' Padded ', '{field.nope}'])]
             judge_csv(rec, cr, world.pool(rnd, 16), tmp, rnd)
+        if shard == 0:
+            legacy_dynamic_tags_probe(rec, tmp)
     finally:
         shutil.rmtree(tmp, ignore_errors=True)
 
@@ -286,6 +312,9 @@ def replay(rec, case):
     rnd = core.rng_for('C02', 'replay')
     tmp = tempfile.mkdtemp(prefix='vt-c02-')
     try:
+        if case['kind'] == 'legacy-dynamic-tags':
+            legacy_dynamic_tags_probe(rec, tmp)
+            return
         txns = [O.untxn(x) for x in case['txns']]
         if case['kind'] == 'csv':
             judge_csv(rec, [R.CsvRule.from_json(r) for r in case['rules']], txns, tmp, None)
